@@ -205,8 +205,8 @@ func c07instanceFor(p *expr) *c07instance {
 	if p != nil {
 		opts = append(opts, buffer.Retry(p.String()))
 	}
-	if len(name)%2 == 1 {
-		// every other instance keeps 4 bytes of a response in memory: all its attempts' bodies ("attempt-N;") spill
+	if len(name)%4 == 3 {
+		// every fourth instance keeps 4 bytes of a response in memory: all its attempts' bodies ("attempt-N;") spill
 		// to a file - the discarded ones, the final one, and the one delivered when the attempts run out
 		opts = append(opts, buffer.MemResponseBodyBytes(4))
 	}
